@@ -37,7 +37,7 @@ def runs(prop, tier):
          ("weights spanning 60 binary orders of magnitude: G(4) x A3 and G(5) x A2, each with one more component = a single edge weighing 2^60",
           [["--n", 4, "--alpha", "A3", "--ks", ks_q, "--plus-heavy-k2"], ["--n", 5, "--alpha", "A2", "--ks", ks_q, "--plus-heavy-k2"], ["--n", 5, "--alpha", "H2", "--ks", ks_q, "--plus-heavy-k2", "--min-m", 7]]),
          ("symmetric families under 30 renumberings x U, M2", [["--families", FAMS_SYM, "--relabel", 30, "--alpha", a, "--ks", ks_q] for a in ("U", "M2")]),
-         ("G(5) with at most 6 edges x PM2 (every assignment of distinct powers of two), k in {%s}" % ks_q, [["--n", 5, "--alpha", "PM2", "--max-m", 6, "--ks", ks_q]]),
+         ("G(5) with at most 6 edges x PM2 (every assignment of distinct powers of two) and x PM (1..m), k in {%s}" % ks_q, [["--n", 5, "--alpha", a, "--max-m", 6, "--ks", ks_q] for a in ("PM2", "PM")]),
          ("edge orientation reversed / alternating: G(0..4) x A3, G(5) x A2", [["--n", n, "--alpha", "A3", "--ks", ks_q, "--orient", o] for n in range(2, 5) for o in (1, 2)] + [["--n", 5, "--alpha", "A2", "--ks", ks_q, "--orient", 1]]),
          ("edge insertion order reversed / interleaved: G(4) x A3, G(5) x A2", [["--n", 4, "--alpha", "A3", "--ks", ks_q, "--eorder", o] for o in (1, 2)] + [["--n", 5, "--alpha", "A2", "--ks", ks_q, "--eorder", o] for o in (1, 2)]),
          ("theta graphs with chords (11 vertices, many non-spanner edges competing for one heavy edge): edge #0 = 1000, every other edge over {1,2}, both orientations",
